@@ -31,11 +31,31 @@ pub struct FillOut {
     pub tris: Vec<(u32, u32, u32)>,
 }
 
+thread_local! {
+    static FILL_CALLS: std::cell::Cell<u64> = std::cell::Cell::new(0);
+    static REUSED: std::cell::RefCell<Option<FillTessellator>> = std::cell::RefCell::new(None);
+}
+
 pub fn fill(entry: Entry, spec: &PathSpec, opts: &FillOptions) -> FillOut {
     let mut buffers: VertexBuffers<Point, u32> = VertexBuffers::new();
     let (ok, calls, positions) = {
         let mut rec = Recorder::new(&mut buffers, None);
-        let ok = catch(AssertUnwindSafe(|| run_fill(entry, &mut FillTessellator::new(), spec, opts, &mut rec))).map(|r| r.is_ok());
+        // every other call goes through one long-lived tessellator (the property does not depend on the tessellator's
+        // history: C08); it is replaced after a call that failed or panicked
+        let n = FILL_CALLS.with(|c| {
+            c.set(c.get() + 1);
+            c.get()
+        });
+        let ok = if n % 2 == 0 {
+            let mut t = REUSED.with(|t| t.borrow_mut().take()).unwrap_or_else(FillTessellator::new);
+            let ok = catch(AssertUnwindSafe(|| run_fill(entry, &mut t, spec, opts, &mut rec))).map(|r| r.is_ok());
+            if ok == Some(true) {
+                REUSED.with(|c| *c.borrow_mut() = Some(t));
+            }
+            ok
+        } else {
+            catch(AssertUnwindSafe(|| run_fill(entry, &mut FillTessellator::new(), spec, opts, &mut rec))).map(|r| r.is_ok())
+        };
         (ok, rec.calls.clone(), rec.positions.clone())
     };
     let mut pos = vec![point(f32::NAN, f32::NAN); buffers.vertices.len().max(positions.iter().map(|p| p.0 as usize + 1).max().unwrap_or(0))];
